@@ -1,7 +1,9 @@
 package statsd
 
 import (
+	"bytes"
 	"context"
+	"io"
 	"net/http"
 	"strings"
 	"sync/atomic"
@@ -333,3 +335,69 @@ func VerifC15_Retry7()    { verifC15Retry(7, 30*time.Second) }
 func VerifC15_Utf8_3()    { verifC15Utf8(3) }
 func VerifC15_Split_2_3() { verifC15Split(2, 3) }
 func VerifC15_Pipeline5() { verifC15Pipeline(5) }
+
+// VerifC15_Interleaved: two requests in flight at once. While the first attempt of batch A is
+// at the upstream (which will answer 503), the forwarder builds and delivers batch B - the
+// forwarder posts concurrently, so this is an ordinary interleaving, played here by calling
+// postMetrics for B from inside the transport. A's retry must still carry A's datapoints: a
+// request body must not live in storage that building a later request reuses (scratch buffer
+// from a pool, shared slice). sync.Pool is LIFO in the engine, the adversarial choice.
+type verifInterleaveUp struct {
+	hfh   *HttpForwarderHandlerV2
+	srv   *web.VerifRawHandler
+	phase int
+	mmB   *gostatsd.MetricMap
+}
+
+func (u *verifInterleaveUp) RoundTrip(req *http.Request) (*http.Response, error) {
+	switch u.phase {
+	case 0:
+		u.phase = 1
+		_, _ = io.Copy(io.Discard, req.Body)
+		u.hfh.postMetrics(context.Background(), u.mmB, "", 4)
+		return &http.Response{StatusCode: 503, Body: io.NopCloser(bytes.NewReader(nil)), Header: http.Header{}}, nil
+	default:
+		u.phase++
+		verifAssume(u.phase <= 4)
+		w := &verifRespWriter{hdr: http.Header{}}
+		u.srv.MetricHandler(w, req)
+		return &http.Response{StatusCode: w.code, Body: io.NopCloser(bytes.NewReader(nil)), Header: http.Header{}}, nil
+	}
+}
+
+func VerifC15_Interleaved() {
+	compress := nondetBool()
+	var ct web.CompressionType = web.Zlib
+	if nondetBool() {
+		ct = web.Lz4
+	}
+	va, vb := int64(nondetInt32()), int64(nondetInt32())
+	hfh, up0 := verifNewForwarder(false, 4, compress, ct, 30*time.Second)
+	mmB := gostatsd.NewMetricMap(false)
+	mmB.Counters["b"] = map[string]gostatsd.Counter{"": {Value: vb}}
+	up := &verifInterleaveUp{hfh: hfh, srv: up0.srv, mmB: mmB}
+	hfh.client = &http.Client{Transport: up}
+	mmA := gostatsd.NewMetricMap(false)
+	mmA.Counters["a"] = map[string]gostatsd.Counter{"": {Value: va}}
+	hfh.postMetrics(context.Background(), mmA, "", 3)
+	sent, dropped := atomic.LoadUint64(&hfh.messagesSent), atomic.LoadUint64(&hfh.messagesDropped)
+	// A may legitimately be dropped: the real back-off decides against the symbolic clock
+	verifAssert(sent+dropped == 2 && dropped <= 1, "each batch is either sent or counted once as dropped")
+	verifAssert(uint64(len(up0.rec.maps)) == sent, "the upstream pipeline receives exactly the batches counted as sent")
+	na, nb := 0, 0
+	for _, got := range up0.rec.maps {
+		if c, ok := got.Counters["a"][""]; ok {
+			na++
+			verifAssert(c.Value == va && len(got.Counters) == 1, "the retried request carries its own batch")
+		}
+		if c, ok := got.Counters["b"][""]; ok {
+			nb++
+			verifAssert(c.Value == vb && len(got.Counters) == 1, "the request built in between carries its own batch")
+		}
+	}
+	verifAssert(nb == 1 && uint64(na) == sent-1, "each batch is delivered at most once: a retry must not carry the datapoints of a request built after it")
+	if na == 1 {
+		verifReach("retry-delivered")
+	}
+	verifReach("interleaved")
+}
